@@ -119,6 +119,21 @@ pub fn timestamp(_cex: &Value) -> Result<String, String> {
       }
     }
   }
+  // durations as long as the whole range (3 652 424 days and 86399 s from the first to the last instant): the sum is returned exactly
+  // when it is inside the range, from starts at both ends, in both directions
+  for days in [3_649_999u32, 3_650_000, 3_650_001, 3_652_000, 3_652_423, 3_652_424, 3_652_425, 3_700_000] {
+    let d = days as i64 * 86400;
+    for (base, sign) in [(MIN, 1i64), (MIN + 86399, 1), (MIN + 86400 * 2000, 1), (MAX, -1), (MAX - 86399, -1), (MAX - 86400 * 2000, -1)] {
+      let t = Timestamp::from_unix(base).unwrap();
+      let got = no_panic(move || if sign > 0 { t.checked_add(Duration::days(days)) } else { t.checked_sub(Duration::days(days)) }.map(|x| x.to_unix()));
+      let want = Some(base + sign * d).filter(|x| (MIN..=MAX).contains(x));
+      match got {
+        Err(msg) => log.push(format!("[arith] {base} {} days({days}) panicked: {msg}", if sign > 0 { "+" } else { "-" })),
+        Ok(g) if g != want => log.push(format!("[arith] {base} {} days({days}) = {g:?}, integer arithmetic gives {want:?}", if sign > 0 { "+" } else { "-" })),
+        Ok(_) => {}
+      }
+    }
+  }
   // every unit constructor is count * unit seconds as an integer, also past u32::MAX seconds
   type Ctor = fn(u32) -> Duration;
   let units: [(&str, Ctor, i64); 5] =
